@@ -52,6 +52,9 @@ type Vector struct {
 
 type Metric struct {
 	MetricType MetricType
+	// Help is the help string of the first vector registered under this name;
+	// all vectors of one metric family have to share it
+	Help string
 	// Vectors key is the hash of the label names
 	Vectors map[NameHash]*Vector
 	// Metrics key is a hash of the label names + label values
